@@ -10,6 +10,7 @@
 #include <string.h>
 #include <stdlib.h>
 #include <math.h>
+#include <limits.h>
 
 /* exception model: throw = set flag + return; callers test the flag (VERIF_PROPAGATE) */
 int verif_exc;
